@@ -117,3 +117,271 @@ func genRecvFacts(repo string) (string, error) {
 	sb.WriteString("end Opcua.Gen.RecvFacts\n")
 	return sb.String(), nil
 }
+
+// ---------------------------------------------------------------- recvalias (C20)
+
+func init() {
+	register("recvalias", "RecvAlias.lean", genRecvAlias)
+}
+
+func recvIsByteSliceOrBuffer(fset *token.FileSet, t ast.Expr) bool {
+	s := recvSrc(fset, t)
+	switch s {
+	case "[]byte", "[]uint8", "bytes.Buffer", "*bytes.Buffer", "[][]byte", "*bufio.Reader", "*bufio.Writer", "bufio.Reader", "sync.Pool", "*sync.Pool":
+		return true
+	}
+	return false
+}
+
+// recvStructHasBufferField reports the names of buffer-like fields of a struct type.
+func recvStructBufferFields(fset *token.FileSet, f *ast.File, name string) ([]string, bool) {
+	var out []string
+	found := false
+	ast.Inspect(f, func(n ast.Node) bool {
+		ts, ok := n.(*ast.TypeSpec)
+		if !ok || ts.Name.Name != name {
+			return true
+		}
+		st, ok := ts.Type.(*ast.StructType)
+		if !ok {
+			return true
+		}
+		found = true
+		for _, fl := range st.Fields.List {
+			if recvIsByteSliceOrBuffer(fset, fl.Type) {
+				for _, n := range fl.Names {
+					out = append(out, name+"."+n.Name)
+				}
+				if len(fl.Names) == 0 {
+					out = append(out, name+".(embedded "+recvSrc(fset, fl.Type)+")")
+				}
+			}
+		}
+		return false
+	})
+	return out, found
+}
+
+func genRecvAlias(repo string) (string, error) {
+	var sb strings.Builder
+	var notes []string
+
+	// (1) Conn.Receive: first statement `b := make([]byte, …)`, every result is nil or a slice of b, b is stored nowhere
+	fset, conn, err := recvParse(repo, "uacp/conn.go")
+	if err != nil {
+		return "", err
+	}
+	rf := recvFunc(conn, "Conn", "Receive")
+	if rf == nil || len(rf.Body.List) == 0 {
+		return "", fmt.Errorf("uacp.Conn.Receive not found")
+	}
+	recvMakes := false
+	bufName := ""
+	if as, ok := rf.Body.List[0].(*ast.AssignStmt); ok && as.Tok == token.DEFINE && len(as.Lhs) == 1 && len(as.Rhs) == 1 {
+		if id, ok := as.Lhs[0].(*ast.Ident); ok {
+			if call, ok := as.Rhs[0].(*ast.CallExpr); ok {
+				if fn, ok := call.Fun.(*ast.Ident); ok && fn.Name == "make" && len(call.Args) >= 2 && recvSrc(fset, call.Args[0]) == "[]byte" {
+					recvMakes, bufName = true, id.Name
+				}
+			}
+		}
+	}
+	if recvMakes {
+		ast.Inspect(rf.Body, func(n ast.Node) bool {
+			switch x := n.(type) {
+			case *ast.ReturnStmt:
+				if len(x.Results) == 2 {
+					r := recvSrc(fset, x.Results[0])
+					if r != "nil" && !strings.HasPrefix(r, bufName+"[") && r != bufName {
+						recvMakes = false
+						notes = append(notes, "Conn.Receive returns "+r)
+					}
+				}
+			case *ast.AssignStmt:
+				for i, l := range x.Lhs {
+					if _, isSel := l.(*ast.SelectorExpr); isSel && i < len(x.Rhs) && strings.Contains(recvSrc(fset, x.Rhs[i]), bufName) {
+						recvMakes = false
+						notes = append(notes, "Conn.Receive stores the buffer: "+recvSrc(fset, x))
+					}
+				}
+				if x.Tok == token.ASSIGN {
+					for _, l := range x.Lhs {
+						if id, ok := l.(*ast.Ident); ok && id.Name == bufName {
+							recvMakes = false
+							notes = append(notes, "Conn.Receive re-assigns the buffer: "+recvSrc(fset, x))
+						}
+					}
+				}
+			}
+			return true
+		})
+	} else {
+		notes = append(notes, "Conn.Receive does not start with `b := make([]byte, …)`: "+recvSrc(fset, rf.Body.List[0]))
+	}
+
+	// (2) no buffer-like fields in Conn, SecureChannel, channelInstance
+	noFields := true
+	fsetS, sc, err := recvParse(repo, "uasc/secure_channel.go")
+	if err != nil {
+		return "", err
+	}
+	fsetI, inst, err := recvParse(repo, "uasc/secure_channel_instance.go")
+	if err != nil {
+		return "", err
+	}
+	for _, q := range []struct {
+		fs   *token.FileSet
+		f    *ast.File
+		name string
+	}{{fset, conn, "Conn"}, {fsetS, sc, "SecureChannel"}, {fsetI, inst, "channelInstance"}} {
+		fields, found := recvStructBufferFields(q.fs, q.f, q.name)
+		if !found {
+			return "", fmt.Errorf("struct %s not found", q.name)
+		}
+		if len(fields) > 0 {
+			noFields = false
+			notes = append(notes, "buffer-like fields: "+strings.Join(fields, ", "))
+		}
+	}
+
+	// (3) no sync.Pool in the non-test files of uacp, uasc, ua
+	noPool := true
+	for _, dir := range []string{"uacp", "uasc", "ua"} {
+		files, _ := filepath.Glob(filepath.Join(repo, dir, "*.go"))
+		for _, fn := range files {
+			if strings.HasSuffix(fn, "_test.go") || strings.HasPrefix(filepath.Base(fn), "verif_") {
+				continue
+			}
+			fs := token.NewFileSet()
+			f, err := parser.ParseFile(fs, fn, nil, 0)
+			if err != nil {
+				return "", err
+			}
+			ast.Inspect(f, func(n ast.Node) bool {
+				if sel, ok := n.(*ast.SelectorExpr); ok {
+					if id, ok := sel.X.(*ast.Ident); ok && id.Name == "sync" && sel.Sel.Name == "Pool" {
+						noPool = false
+						notes = append(notes, "sync.Pool in "+filepath.Base(fn))
+					}
+				}
+				return true
+			})
+		}
+	}
+
+	// (4) verifyAndDecrypt: `b := make([]byte, len(r))`, `copy(b, r)`, the input r and m.Data are never written
+	vd := recvFunc(inst, "channelInstance", "verifyAndDecrypt")
+	if vd == nil || len(vd.Type.Params.List) != 2 {
+		return "", fmt.Errorf("channelInstance.verifyAndDecrypt(m, r) not found")
+	}
+	rName := vd.Type.Params.List[1].Names[0].Name
+	mName := vd.Type.Params.List[0].Names[0].Name
+	hasMake, hasCopy, writesInput := false, false, false
+	// the copy: `V := make([]byte, len(r))` … `copy(V, r)`
+	cp := ""
+	ast.Inspect(vd.Body, func(n ast.Node) bool {
+		if as, ok := n.(*ast.AssignStmt); ok && as.Tok == token.DEFINE && len(as.Lhs) == 1 && len(as.Rhs) == 1 {
+			if id, ok := as.Lhs[0].(*ast.Ident); ok && recvSrc(fsetI, as.Rhs[0]) == "make([]byte, len("+rName+"))" {
+				cp, hasMake = id.Name, true
+			}
+		}
+		return true
+	})
+	ast.Inspect(vd.Body, func(n ast.Node) bool {
+		switch x := n.(type) {
+		case *ast.AssignStmt:
+			s := recvSrc(fsetI, x)
+			for _, l := range x.Lhs {
+				ls := recvSrc(fsetI, l)
+				if strings.HasPrefix(ls, rName+"[") || strings.HasPrefix(ls, mName+".Data") || ls == rName {
+					writesInput = true
+					notes = append(notes, "verifyAndDecrypt writes its input: "+s)
+				}
+			}
+		case *ast.CallExpr:
+			s := recvSrc(fsetI, x)
+			if cp != "" && s == "copy("+cp+", "+rName+")" {
+				hasCopy = true
+			}
+			if strings.HasPrefix(s, "copy("+rName) || strings.HasPrefix(s, "copy("+mName+".Data") || strings.HasPrefix(s, "append("+rName) || strings.HasPrefix(s, "append("+mName+".Data") {
+				writesInput = true
+				notes = append(notes, "verifyAndDecrypt writes its input: "+s)
+			}
+			// the ciphertext handed to Decrypt must be a slice of the copy
+			if strings.Contains(s, ".Decrypt(") && (cp == "" || !strings.Contains(s, ".Decrypt("+cp+"[")) {
+				writesInput = true
+				notes = append(notes, "Decrypt is not applied to the copy: "+s)
+			}
+		}
+		return true
+	})
+	decryptCopies := hasMake && hasCopy && !writesInput
+	if !hasMake || !hasCopy {
+		notes = append(notes, "verifyAndDecrypt: `b := make([]byte, len(r)); copy(b, r)` not found")
+	}
+
+	// (5) mergeChunks: `var b []byte` in the function, the only writes are `b = append(b, …)`
+	mc := recvFunc(sc, "", "mergeChunks")
+	if mc == nil {
+		return "", fmt.Errorf("mergeChunks not found")
+	}
+	declared, onlyAppend := false, true
+	// the result variable: the identifier of the last `return X, nil`
+	res := ""
+	ast.Inspect(mc.Body, func(n ast.Node) bool {
+		if rs, ok := n.(*ast.ReturnStmt); ok && len(rs.Results) == 2 {
+			if id, ok := rs.Results[0].(*ast.Ident); ok && id.Name != "nil" {
+				res = id.Name
+			}
+		}
+		return true
+	})
+	ast.Inspect(mc.Body, func(n ast.Node) bool {
+		switch x := n.(type) {
+		case *ast.DeclStmt:
+			if res != "" && strings.HasPrefix(recvSrc(fsetS, x), "var "+res+" []byte") {
+				declared = true
+			}
+		case *ast.AssignStmt:
+			s := recvSrc(fsetS, x)
+			if res != "" && strings.HasPrefix(s, res+" := make([]byte, 0") {
+				declared = true
+			}
+			for _, l := range x.Lhs {
+				ls := recvSrc(fsetS, l)
+				if ls == res && x.Tok == token.ASSIGN && !strings.HasPrefix(recvSrc(fsetS, x.Rhs[0]), "append("+res+", ") {
+					onlyAppend = false
+					notes = append(notes, "mergeChunks: "+s)
+				}
+				if strings.Contains(ls, ".Data") || strings.Contains(ls, "[") {
+					onlyAppend = false
+					notes = append(notes, "mergeChunks writes a chunk: "+s)
+				}
+			}
+		case *ast.CallExpr:
+			if s := recvSrc(fsetS, x); strings.HasPrefix(s, "copy(") {
+				onlyAppend = false
+				notes = append(notes, "mergeChunks: "+s)
+			}
+		}
+		return true
+	})
+	mergeFresh := declared && onlyAppend
+	if !declared {
+		notes = append(notes, "mergeChunks: result slice is not declared in the function")
+	}
+
+	sb.WriteString("import OpcuaModel.Model.Own\nnamespace Opcua.Gen.RecvAlias\nopen Opcua.Own\n\n")
+	sb.WriteString("/-- alias facts of the receive path read from uacp/conn.go, uasc/secure_channel.go,\n    uasc/secure_channel_instance.go and the file lists of uacp, uasc, ua -/\n")
+	fmt.Fprintf(&sb, "def facts : Facts :=\n  { recvMakesPerCall := %v, noBufferFields := %v, noPool := %v, decryptCopies := %v, mergeAppendsFresh := %v }\n\n",
+		recvMakes, noFields, noPool, decryptCopies, mergeFresh)
+	if len(notes) > 0 {
+		sb.WriteString("/- what the extractor saw:\n")
+		for _, n := range notes {
+			sb.WriteString("   " + strings.ReplaceAll(n, "-/", "- /") + "\n")
+		}
+		sb.WriteString("-/\n\n")
+	}
+	sb.WriteString("end Opcua.Gen.RecvAlias\n")
+	return sb.String(), nil
+}
